@@ -1,7 +1,7 @@
 (* C17 — workflow results do not depend on worker or schedule (partial: the model covers the two
    scheduling loops, every oracle and every max_concurrent; real pool timing and cloudpickle
    transport of jobs are runtime behaviour covered by the correspondence run only). *)
-From Pydra Require Import Base.Prelude Base.SchedBase Model.Sched Spec.Sched Proofs.SchedH Proofs.SchedI Proofs.SchedK Proofs.SchedL Proofs.SchedM Proofs.SchedN.
+From Pydra Require Import Base.Prelude Base.SchedBase Model.Sched Spec.Sched Proofs.SchedH Proofs.SchedI Proofs.SchedK Proofs.SchedL Proofs.SchedM Proofs.SchedN Proofs.SchedO.
 
 (* job values are an uninterpreted function `body` of (node, index, values read from the results of
    the predecessor nodes' jobs when the node is started) *)
@@ -116,4 +116,26 @@ Example C17_sync_any_nonvacuous :
   let g := [mkNode 0 [] 0; mkNode 1 [0] 2; mkNode 2 [1] 1] in
   wf_graph g /\ 2 * (List.length (all_jobs g) + List.length g) + 3 <= 15
   /\ outs_eqb (node_outputs g (run_sync tv T (fun _ => false) repaired g None 15)) (reference_outputs tv T g) = true.
+Proof. vm_compute. repeat split; repeat constructor. Qed.
+
+(* Asynchronous loop with empty nodes: fewer than ten nodes with zero jobs (the stall block allows ten empty
+   polls), no failing job, max_concurrent >= 1 or none: for every oracle, |jobs| + 2 iterations suffice and the
+   outputs are the reference outputs (any two such runs agree). *)
+Theorem C17_async_reference_bounded_empty :
+  forall (V : Type) (body : nat -> nat -> list (list (option V)) -> V) (vr : variant) (g : graph)
+         (k : option nat) (orc : list oracle_step) (fuel : nat),
+    fix14 vr = true -> wf_graph g -> (forall k', k = Some k' -> 1 <= k') ->
+    List.length (filter (fun nd => njobs nd =? 0) g) + 2 <= 11 ->
+    List.length (all_jobs g) + 2 <= fuel ->
+    node_outputs g (run_async V body (fun _ => false) vr g k orc fuel) = reference_outputs V body g.
+Proof.
+  intros V body vr g k orc fuel F WF KP EZ B. apply async_outputs; auto.
+  apply (async_terminates_bounded_empty V body (fun _ => false) vr F g WF k (fun _ => eq_refl) KP); [exact EZ|exact B].
+Qed.
+Print Assumptions C17_async_reference_bounded_empty.
+
+Example C17_bounded_empty_nonvacuous :
+  let g := [mkNode 0 [] 0; mkNode 1 [0] 2; mkNode 2 [1] 0; mkNode 3 [1; 2] 1] in
+  wf_graph g /\ List.length (filter (fun nd => njobs nd =? 0) g) + 2 <= 11 /\ List.length (all_jobs g) + 2 <= 5
+  /\ outs_eqb (node_outputs g (run_async tv T (fun _ => false) repaired g (Some 1) [mkStep [1] [true]] 5)) (reference_outputs tv T g) = true.
 Proof. vm_compute. repeat split; repeat constructor. Qed.
